@@ -72,7 +72,7 @@ def make_reader(fmt, opts=None):
         return MicroDVDReader()
     if fmt in ("dfxp", "dfxp-tree", "dfxp-text"):
         return DFXPReader()
-    if fmt in ("sami", "sami-tree"):
+    if fmt in ("sami", "sami-tree", "sami-text"):
         return SAMIReader()
     raise ValueError(fmt)
 
@@ -87,7 +87,7 @@ def extract(fmt, cs, lang=None, rlang=None):
         return times_of(cs, lang)
     if fmt == "sami":
         return {l: times_of(cs, l) for l in cs.get_languages()}
-    if fmt in ("dfxp-tree", "sami-tree", "dfxp-text"):
+    if fmt in ("dfxp-tree", "sami-tree", "dfxp-text", "sami-text"):
         return [[l, times_of(cs, l)] for l in cs.get_languages()]
     return times_of(cs)
 
@@ -655,6 +655,35 @@ def stream_dfxp_corpus(ctx, acc):
         # a fixture with malformed layout / times is refused by parts of the reader the model does not contain
         check_text_model(acc, "dfxp-corpus-" + kind, d, r_result(tm), obs, failing=(kind == "writer"))
 
+# ---- SAMI documents AS TEXT (round 4, requests 122 / 123): the body text is rendered by the Coq renderer --------------
+def stream_sami_text(ctx, acc, n):
+    """abstract documents of coq/spec/SpecSamiText.v; the extracted string-level model (coq/model/SamiText.v: tokens ->
+    sync / paragraph machine -> sami_read_tree) and the real SAMIReader read the SAME body text (the real reader with the
+    head in front: the stylesheet goes through cssutils, the model is given its class -> lang table)."""
+    import samitextgen as sg
+    cases = [sg.gen(ctx.rng) for _ in range(n)]
+    outs = oracle_batch([(122, [sg.STYLES[:nl], d]) for (nl, d, _) in cases])
+    dd = acc.res["distribution"]
+    for (nl, d, g), o in zip(cases, outs):
+        if o == [-1]:
+            acc.res["disagreements"].append({"format": "sami-text", "what": "request 122 refused the abstract document", "input": plain(d)})
+            continue
+        doc = sg.head(nl) + o[0]
+        model, expected, dom = r_result(o[1]), r_result(o[2]), o[3] == 1
+        obs = impl.call(lambda: dict_obs(SAMIReader().read(doc)))
+        for key, val in (("sami_text_unquoted_attribute_values", g.unquoted), ("sami_text_single_quoted_attribute_values", g.single),
+                         ("sami_text_character_references", g.refs), ("sami_text_nbsp_entities", g.nbsp),
+                         ("sami_text_upper_case_tag_names", g.upper), ("sami_text_paragraphs", g.ps),
+                         ("sami_text_paragraphs_visible_only_through_references", getattr(g, "only_refs", 0))):
+            dd[key] = dd.get(key, 0) + val
+        rec = {"input": None, "document": doc, "opts": None}
+        check_reuse(acc, "sami-text", {"input": None}, obs, doc, dom=dom)
+        compare_dict(acc, "sami-text", rec, expected, obs, model, dom)
+        if dom:
+            acc.res["nontrivial"].add(("sami-text", doc))
+    if cases and outs[0] != [-1]:
+        acc.res["samples"].append({"format": "sami-text", "document": sg.head(cases[0][0]) + outs[0][0]})
+
 
 def nearest(tt, chain):
     for x in chain:
@@ -930,22 +959,23 @@ def run(ctx):
     acc = Acc()
     res = acc.res
     q = ctx.n
-    stream_docs(ctx, acc, "srt", q(1200, 25000), tg.gen_srt_doc, 100, lambda d: d, lambda d: None, tg.srt_nontrivial)
-    stream_docs(ctx, acc, "vtt", q(1200, 25000), tg.gen_vtt_doc, 101, lambda d: d, lambda d: (d[0], d[1]),
+    stream_docs(ctx, acc, "srt", q(1100, 25000), tg.gen_srt_doc, 100, lambda d: d, lambda d: None, tg.srt_nontrivial)
+    stream_docs(ctx, acc, "vtt", q(1100, 25000), tg.gen_vtt_doc, 101, lambda d: d, lambda d: (d[0], d[1]),
                 tg.vtt_nontrivial)
     stream_docs(ctx, acc, "mdvd", q(1000, 20000), tg.gen_mdvd_doc, 102, lambda d: d, lambda d: None, mdvd_nontriv)
-    stream_dfxp(ctx, acc, q(700, 10000))
+    stream_dfxp(ctx, acc, q(600, 10000))
     stream_sami(ctx, acc, q(300, 5000))
     stream_dfxp_tree(ctx, acc, q(400, 6000))
-    stream_sami_tree(ctx, acc, q(250, 4000))
+    stream_sami_tree(ctx, acc, q(200, 4000))
     stream_dfxp_text(ctx, acc, q(300, 3000))
     stream_dfxp_corpus(ctx, acc)
+    stream_sami_text(ctx, acc, q(150, 3000))
     stream_explicit(ctx, acc)
     stream_frame_rate(ctx, acc)
     stream_raw(ctx, acc, q(150, 2500))
     if ctx.thorough:
         sweep(ctx, acc)
-    res["streams"] = 11
+    res["streams"] = 12
     res["distribution"].setdefault("model_differences_outside_the_property", 0)
     res["notes"].append("malformed/raw stream, strict-unsorted WebVTT and blank paragraphs with junk time attributes: model "
                         "vs implementation compared incl. exception class; %d differences (recorded, NOT failing: the "
@@ -993,13 +1023,19 @@ def run(ctx):
                     "tags, quote characters, attribute order, xml:lang position, XML declaration, character references) "
                     "the rendered text parses to its tree (C01_dfxp_text_to_tree) and the string-level reader returns "
                     "exactly the denoted caption set (C01_dfxp_string_exact); well-formed text implies the tree-level "
-                    "domain (C01_dfxp_text_domain)"],
+                    "domain (C01_dfxp_text_domain)",
+                    "SAMI at STRING level (round 4): for every abstract document (several languages, any strictly "
+                    "increasing sync list per language, blank paragraphs) with every lexical choice (tag-name case, "
+                    "double / single / no quotes, white space, references, &nbsp;, <br>) the body text tokenises to its "
+                    "tags and runs (C01_sami_text_tokens) and the string-level reader returns exactly the denoted captions "
+                    "of every language (C01_sami_string_exact)"],
         "definitional_or_spec_internal": ["C01_vtt_shift (identity between two spec functions)",
                                           "C01_dfxp_blank_paragraph_ignored, C01_dfxp_missing_times_refused (unfold the "
                                           "model)", "C01_dfxp_long_fraction_refuted (history: the pre-fix variant)",
                                           "C01_dfxp_div_exact, C01_vtt_validation_transparent (liftings / corollaries)"],
-        "correspondence_only": ["SAMI text -> abstract tree (html.parser / BeautifulSoup-lxml); the SAMI documents are "
-                                "assembled by Python around Coq-rendered attribute strings",
+        "correspondence_only": ["SAMI head / stylesheet (cssutils): the model is given the class -> lang table; SAMI text "
+                                "outside the sublanguage of spec/SpecSamiText.v (missing end tags, comments, markup inside "
+                                "paragraphs)",
                                 "DFXP text -> tree: since wave 7 INSIDE the model on the XML sublanguage of "
                                 "spec/SpecXmlDocT.v (theorem C01_dfxp_string_exact; the model parser stands for BeautifulSoup + "
                                 "html.parser and is executed against the real reader on every generated text, on the "
@@ -1067,7 +1103,7 @@ def replay(ctx, rec):
         fresh = read_with(fmt, rec["document"], opts, rec.get("lang"), rec.get("rlang"))
         return show(reused) != show(fresh), [show(reused), show(fresh)]
     if rec.get("replay") == "tree":
-        reader = SAMIReader if fmt == "sami-tree" else DFXPReader
+        reader = SAMIReader if fmt in ("sami-tree", "sami-text") else DFXPReader
         obs = impl.call(lambda: dict_obs(reader().read(rec["document"])))
         return show(obs) != rec["expected"], show(obs)
     opts = rec.get("opts")
